@@ -3,6 +3,7 @@ import Pyunicorn.Lemmas.CouplingGJ
 import Pyunicorn.Lemmas.Coupling3
 import Mathlib.Algebra.BigOperators.Ring.Finset
 import Mathlib.Algebra.Order.BigOperators.Group.Finset
+import Mathlib.LinearAlgebra.Matrix.NonsingularInverse
 /-!
 # C10 round 5: Gauss–Jordan elimination (`gjInverse`) is **complete**
 
@@ -346,5 +347,34 @@ theorem collinear_gram_kernel (x : Nat → Nat → Rat) (T N : Nat) (v : Nat →
     ring
   rw [e, sumTo_congr (g := fun _ => 0) (fun t ht => by rw [h t ht]; ring), sumTo_const]
   ring
+
+/-! ### a left inverse of a square matrix is a right inverse (Mathlib: matrices over a field are
+Dedekind-finite) -/
+
+theorem sumTo_fin' (n : Nat) (f : Nat → Rat) : sumTo n f = ∑ k : Fin n, f k := by
+  rw [sumTo_eq_finset, Finset.sum_range]
+
+/-- a left inverse on the indices `< N` is a right inverse (square matrices over a field) -/
+theorem left_inverse_is_right (C P : Nat → Nat → Rat) (N : Nat)
+    (h : ∀ i j, i < N → j < N → sumTo N (fun l => P i l * C l j) = if i = j then 1 else 0) :
+    ∀ i j, i < N → j < N → sumTo N (fun l => C i l * P l j) = if i = j then 1 else 0 := by
+  let A : Matrix (Fin N) (Fin N) Rat := fun i j => P i j
+  let B : Matrix (Fin N) (Fin N) Rat := fun i j => C i j
+  have hAB : A * B = 1 := by
+    ext i j
+    rw [Matrix.mul_apply, Matrix.one_apply]
+    have := h i j i.2 j.2
+    rw [sumTo_fin'] at this
+    simp only [A, B]
+    rw [this]
+    simp [Fin.ext_iff]
+  have hBA : B * A = 1 := mul_eq_one_comm.mp hAB
+  intro i j hi hj
+  have := congrFun (congrFun hBA ⟨i, hi⟩) ⟨j, hj⟩
+  rw [Matrix.mul_apply, Matrix.one_apply] at this
+  rw [sumTo_fin']
+  simp only [A, B] at this
+  rw [this]
+  simp [Fin.ext_iff]
 
 end Pyunicorn.Coupling
